@@ -222,4 +222,13 @@ def obligations(repo):
         pass
     import c20_fmt
     obs += c20_fmt.fmt_obligations("C20")
+    # list_int_insert: the contract-enforced obligations are open (see list_int); whole-function bounded stand-in, plain CBMC
+    for cap in range(1, 5):
+        for ln in range(0, cap + 1):
+            for ix in range(0, ln + 1):
+                obs.append(dict(id="C20.list.int.insert.bounded.c%d.l%d.i%d" % (cap, ln, ix), prop="C20", harness="harness/list_insert_h.c",
+                                entry="h_insert_bounded", defines={"LIST_C": cap, "LIST_L": ln, "LIST_I": ix}, include_repo=["src"], unwind=8,
+                                object_bits=10, strength="B(list capacity <= 4: case split over capacity, fill level, index; contents arbitrary)",
+                                functions=["list_int_insert", "ensure_capacity"], must_have=[r"C20\.list insert", r"COVER"], min_checks=20,
+                                timeout=300, witness=None))
     return obs
